@@ -595,6 +595,12 @@ import re as _re
 _PROMOTED = _re.compile(r"::promoted\[(\d+)\]")
 
 
+def foreign_expansion(span):
+    """code produced by a macro that is NOT defined in the analysed crate (format_args!, debug_assert!, derives ..);
+    the expansion of a crate-local `macro_rules!` is ordinary crate code"""
+    return bool(span.get("exp")) and not str(span.get("file", "")).startswith("src/")
+
+
 def _const_text(o):
     return o["s"]
 
